@@ -77,7 +77,7 @@ def main():
             results.append(r)
             caught = {p: c["exit"] == 1 for p, c in r.get("checks", {}).items()}
             print(r["name"], r.get("error", ""), "demo:", r.get("demo_fails_with_change"), r.get("demo_passes_without"), "caught:", caught, flush=True)
-    sh(["git", "-C", VERIF, "checkout", "--", "lean/PersimVerif/Generated"])
+    sh(["/venv/bin/python", os.path.join(VERIF, "tools", "regen.py")])      # generated Lean back to what /repo gives
     path = os.path.join(root, "RESULTS.json")
     old = {}
     if os.path.exists(path):
